@@ -37,7 +37,12 @@ def cfg_cpp(c, g):
         g.gid, fam, ctl, "action" if a else "nothing", "required" if m else "optional", eol, g.gid)
 
 
+EOL_CFGS = [("act1", "ctl2", 1, 1, e) for e in ("lf", "cr", "crlf", "lf_crlf", "cr_crlf")]
+
+
 def choose_cfgs(g, k, tier):
+    if "atoms" in g.tags:
+        return EOL_CFGS
     if tier == "thorough":
         idx = [0, 1, 2, 3, 5, 8, 10] if (k % 2 == 0) else [0, 1, 4, 6, 7, 9, 11]
     else:
@@ -101,6 +106,7 @@ def plan(tier, seed, want_tags=None, nrandom=None, maxlen=None):
         nrandom = 24 if tier == "quick" else 150
     grams += corpus.random_grammars(seed, nrandom, start_gid=len(grams))
     grams += corpus.random_grammars(seed + 7919, nrandom, start_gid=len(grams), classical_only=True)
+    grams += corpus.atom_grammars(tier, start_gid=len(grams))
     if want_tags:
         grams = [g for g in grams if g.tags & set(want_tags)]
     if maxlen is None:
@@ -128,15 +134,15 @@ def prepare_common():
     return {"model_exe": model_exe, "harness_dir": harness_dir, "inc_hash": inc_hash, "har_hash": har_hash, "vmain_o": vmain_o}
 
 
-def run_chunk(common, ch, cfgs_of, maxlen, label="engine"):
+def run_chunk(common, ch, cfgs_of, maxlen, label="engine", sanitize=False):
     """compile (cached), dump, run model + implementation. Returns Chunk or raises/returns error."""
     K = Chunk()
     K.grams = {g.gid: g for g in ch}
     K.error = None
     harness_dir = common["harness_dir"]
     src_text_key = vlib.sha(*[g.cpp() for g in ch], *[cfg_name(c) for g in ch for c in cfgs_of[g.gid]])
-    key = vlib.sha(common["inc_hash"], common["har_hash"], src_text_key, vlib.CXX)
-    d = os.path.join(vlib.BUILD, "corpus", "%s-%s" % (label, key))
+    key = vlib.sha(common["inc_hash"], common["har_hash"], src_text_key, vlib.CXX, "asan" if sanitize else "")
+    d = os.path.join(vlib.BUILD, "corpus", "%s-%s" % (label + ("-asan" if sanitize else ""), key))
     os.makedirs(d, exist_ok=True)
     try:
         os.utime(d)
@@ -149,6 +155,9 @@ def run_chunk(common, ch, cfgs_of, maxlen, label="engine"):
         tmp = exe + ".%d.tmp" % os.getpid()
         cmd = [vlib.CXX, "-std=c++17", "-O0", "-DTAO_PEGTL_VERIF=1", "-I" + os.path.join(vlib.REPO, "include"), "-I" + harness_dir,
                tu, common["vmain_o"], "-o", tmp]
+        if sanitize:
+            cmd = [vlib.CXX, "-std=c++17", "-O1", "-g", "-fsanitize=address,undefined", "-fno-sanitize-recover=all", "-DTAO_PEGTL_VERIF=1",
+                   "-I" + os.path.join(vlib.REPO, "include"), "-I" + harness_dir, tu, os.path.join(harness_dir, "vmain.cpp"), "-o", tmp]
         p = subprocess.run(cmd, stdout=subprocess.PIPE, stderr=subprocess.STDOUT, text=True, errors="replace", timeout=1800)
         if p.returncode != 0:
             errs = [l for l in p.stdout.split("\n") if "error" in l][:6]
@@ -179,13 +188,21 @@ def run_chunk(common, ch, cfgs_of, maxlen, label="engine"):
         if pm.returncode != 0:
             K.error = "model driver failed: " + pm.stdout[-2000:]
             return K
+        K.crash = None
         try:
-            pi = subprocess.run([exe, "run", cases], stdout=subprocess.PIPE, stderr=subprocess.STDOUT, text=True, errors="replace", timeout=600)
+            env = dict(os.environ)
+            env["VH_ECHO"] = "1"
+            env["ASAN_OPTIONS"] = "detect_leaks=0"
+            pi = subprocess.run([exe, "run", cases], stdout=subprocess.PIPE, stderr=subprocess.PIPE, text=True, errors="replace", timeout=900, env=env)
         except subprocess.TimeoutExpired:
             K.error = "implementation run timed out (possible endless loop in the changed library)"
             return K
         if pi.returncode != 0:
-            K.error = "implementation run failed (rc=%d): %s" % (pi.returncode, pi.stdout[-2000:])
+            lines = pi.stderr.split("\n")
+            last = [l for l in lines if l.startswith("CASE ")][-1:] or ["?"]
+            report = [l for l in lines if ("ERROR" in l or "runtime error" in l or "SUMMARY" in l)][:4]
+            K.crash = {"case": last[0], "rc": pi.returncode, "report": " ;; ".join(report)[:1500] or pi.stderr[-800:]}
+            K.error = "implementation crashed (rc=%d) on %s: %s" % (pi.returncode, last[0], K.crash["report"])
             return K
     finally:
         for f in (dump, cases):
